@@ -2,6 +2,7 @@ import Spine.RegistryMore
 import Spine.RegObjThm
 import Spine.RegData
 import Spine.RegWire
+import Spine.RegEvents
 /-!
 # C08 — subscriptions: exact registry and exactly-once notification fan-out
 
@@ -447,5 +448,42 @@ theorem c08_wire_aliased_id_refuted :
 /-- non-vacuity: peer 1 holds two subscriptions (ids 1 and 3), peer 2 one (id 2); each reads its own over the wire -/
 example : RegWire.readSubs false (Reg.run {} loc rem hist) 1 = [⟨1, [1], 1, 1, [1], 1⟩, ⟨3, [1], 2, 1, [1], 3⟩] ∧
     RegWire.readSubs false (Reg.run {} loc rem hist) 2 = [⟨2, [1], 1, 2, [1], 1⟩] := by decide
+
+/-! ## subscription-change events of the subscribe / unsubscribe calls (model `Spine.RegEv`) -/
+
+/-- A subscribe call publishes an add event — naming the requesting device, the client feature and the server
+    feature — exactly when it is granted, and then exactly that pair was appended to the registry under the new id; a
+    refused call publishes nothing and changes nothing (every state, every member). -/
+theorem c08_add_event_iff_granted (c : Reg.Cfg) (s : Reg.St) (p : Nat) (ce : List Nat) (cf : Nat) (se : List Nat) (sf t : Nat) :
+    (RegEv.callEvents c s (.sub p ce cf se sf t) = [.add (p, ce, cf, se, sf)] ↔ (Reg.addSub s p ce cf se sf t).2 = true) ∧
+    ((Reg.addSub s p ce cf se sf t).2 = true →
+      ∃ e, (Reg.addSub s p ce cf se sf t).1.subs = s.subs ++ [e] ∧ Reg.key e = (p, ce, cf, se, sf) ∧ e.id = s.subNum + 1) ∧
+    ((Reg.addSub s p ce cf se sf t).2 = false →
+      RegEv.callEvents c s (.sub p ce cf se sf t) = [] ∧ (Reg.addSub s p ce cf se sf t).1.subs = s.subs) :=
+  RegEv.add_event c s p ce cf se sf t
+
+/-- Repaired member, the registry reached by ANY history: an unsubscribe call publishes a remove event exactly when it
+    succeeds; exactly ONE entry left the registry then, the pair the event names; a call without event left the
+    registry as it was. -/
+theorem c08_remove_event_exact (loc : List Reg.Feat) (rem : Nat → List Reg.Feat) (ops : List Reg.Op) (p cd : Nat)
+    (ce : List Nat) (cf : Nat) (se : List Nat) (sf : Nat) :
+    let s := Reg.run Reg.Cfg.clean loc rem ops
+    (RegEv.callEvents Reg.Cfg.clean s (.unsub p cd ce cf se sf) = [.remove (p, ce, cf, se, sf)] ↔
+      (Reg.delSub Reg.Cfg.clean s p cd ce cf se sf).2 = true) ∧
+    ((Reg.delSub Reg.Cfg.clean s p cd ce cf se sf).2 = true →
+      (Reg.delSub Reg.Cfg.clean s p cd ce cf se sf).1.subs = s.subs.filter (fun e => Reg.key e ≠ (p, ce, cf, se, sf)) ∧
+      (p, ce, cf, se, sf) ∈ s.subs.map Reg.key ∧
+      (Reg.delSub Reg.Cfg.clean s p cd ce cf se sf).1.subs.length + 1 = s.subs.length) ∧
+    ((Reg.delSub Reg.Cfg.clean s p cd ce cf se sf).2 = false →
+      RegEv.callEvents Reg.Cfg.clean s (.unsub p cd ce cf se sf) = [] ∧
+      (Reg.delSub Reg.Cfg.clean s p cd ce cf se sf).1.subs = s.subs) :=
+  RegEv.remove_event _ (Reg.history_subInv Reg.Cfg.clean loc rem ops).keys p cd ce cf se sf
+
+/-- non-vacuity: a granted request, a refused duplicate, a successful delete, a delete of a missing pair -/
+example :
+    RegEv.callEvents {} s0 (.sub 1 [1] 1 [1] 1 1) = [.add (1, [1], 1, [1], 1)] ∧
+    RegEv.callEvents {} (Reg.run {} loc rem hist) (.sub 1 [1] 1 [1] 1 1) = [] ∧
+    RegEv.callEvents Reg.Cfg.clean (Reg.run Reg.Cfg.clean loc rem hist) (.unsub 2 0 [1] 1 [1] 1) = [.remove (2, [1], 1, [1], 1)] ∧
+    RegEv.callEvents Reg.Cfg.clean (Reg.run Reg.Cfg.clean loc rem hist) (.unsub 2 0 [1] 3 [1] 2) = [] := by decide
 
 end Spine.Props.C08
